@@ -143,6 +143,12 @@ struct TpdoRun : NodeEnv {
             uint32_t nv = makeValid ? (t.cobid & ~0x80000000u) : (t.cobid | 0x80000000u); uint32_t ab = sdoWrite((uint16_t)(0x1800 + n), 1, nv, 4); if (ab) { fail("tpdo/cobid-write-refused", "valid-bit toggle refused with " + hex(ab)); return; }
             t.cobid = nv; if (m == M_OP) { activate(t, n); cov.hit(makeValid ? "revalidate-in-op" : "invalidate-in-op"); nontrivial = true; }
         }
+        else if (k == "remap") {   // the canonical re-mapping sequence over SDO, to fewer objects: invalidate, count 0, count k (the first k entries stay as they are), validate - also while OPERATIONAL, next to other running TPDOs
+            if (m != M_PREOP && m != M_OP) return; int n = (int)(o.arg(0) % CO_TPDO_N); TpdoModel &t = T[(size_t)n]; if (!t.exists || t.map.size() < 2) return; size_t kk = 1 + (size_t)o.arg(1) % (t.map.size() - 1); bool wasValid = t.valid();
+            uint32_t ab = 0; if (wasValid) ab = sdoWrite((uint16_t)(0x1800 + n), 1, t.cobid | 0x80000000u, 4); if (!ab) ab = sdoWrite((uint16_t)(0x1A00 + n), 0, 0, 1); if (!ab) ab = sdoWrite((uint16_t)(0x1A00 + n), 0, (uint32_t)kk, 1); if (!ab && wasValid) ab = sdoWrite((uint16_t)(0x1800 + n), 1, t.cobid & ~0x80000000u, 4);
+            if (ab) { giveUp = true; cov.hit("remap-refused-(not-judged-here)"); return; }
+            t.map.resize(kk); if (wasValid && m == M_OP) activate(t, n); cov.hit("tpdo-remapped-to-fewer-objects"); nontrivial = true;
+        }
         else if (k == "badwr") {   // a parameter write that CiA 301 forbids while the PDO is valid (other CAN-ID, other transmission type, extended frame): when it is refused, the running TPDO must not notice it
             if (m != M_PREOP && m != M_OP) return; int n = (int)(o.arg(0) % CO_TPDO_N); TpdoModel &t = T[(size_t)n]; if (!t.exists || !t.valid()) return; int kind = (int)(o.arg(1) % 3);
             uint32_t ab = kind == 0 ? sdoWrite((uint16_t)(0x1800 + n), 1, (t.cobid & ~0x7FFu) | ((t.cobid + 1 + (uint32_t)o.arg(2) % 5) & 0x7FF), 4) : kind == 1 ? sdoWrite((uint16_t)(0x1800 + n), 2, t.type <= 240 ? (t.type == 1 ? 2 : 1) : (t.type == 254 ? 255 : 254), 1) : sdoWrite((uint16_t)(0x1800 + n), 1, t.cobid | 0x20000000u, 4);
@@ -214,6 +220,7 @@ Plan gen_tpdo(Rng &r, bool thorough) {
         else if (c < 17) { if (r.chance(1, 12)) p.ops.push_back(Op("sync", {r.chance(1, 2) ? r.range(250, 600) : r.range(2, 1100)})); else p.ops.push_back(Op("sync")); }
         else if (c == 17) { std::vector<uint8_t> b; for (int j = 0; j < 8; j++) b.push_back(r.byte()); p.ops.push_back(Op("rpdo", {}, b)); }
         else if (c == 18) p.ops.push_back(r.chance(1, 3) ? Op("sendfail", {r.range(1, 3)}) : Op("nmt", {r.pick<int64_t>({1, 1, 2, 128, 130})}));
+        else if (c < 21 && r.chance(1, 6)) p.ops.push_back(Op("remap", {(int64_t)r.below(4), (int64_t)r.below(8)}));
         else if (c < 21) p.ops.push_back(r.chance(1, 4) ? Op("badwr", {(int64_t)r.below(4), (int64_t)r.below(3), (int64_t)r.below(5)}) : Op("cobid", {(int64_t)r.below(4), (int64_t)r.below(2)}));
         else if (c < 23) p.ops.push_back(Op("evtime", {(int64_t)r.below(4), r.chance(1, 4) ? 0 : r.pick<int64_t>({1, 2, 3, 5, 10, 20}) * u}));
         else p.ops.push_back(Op("inhtime", {(int64_t)r.below(4), r.pick<int64_t>({0, 1, 5, 10}) * u * 10}));
